@@ -235,6 +235,49 @@ fn search_honest(rng: &mut Rng, budget: usize) -> Option<String> {
 }
 fn rerun_honest(input: &str) -> Option<String> { let t = input.rsplit('|').next().unwrap(); let (a, b) = t.split_once(';').unwrap(); honest_check(a.parse().unwrap(), &de_l(b)) }
 
+// ---------------- C08: the contiguous length of a replica, also across a full 32768-block bitfield page ----------------
+/// writer of `n` one-byte blocks (one batch); the replica fetches `order`; after every step the reported contiguous length must
+/// be the smallest index that is not held, and has() must agree with what was fetched
+fn contiguous_check(n: usize, order: &[u64]) -> Option<String> {
+    let order = order.to_vec();
+    let r = guarded(move || {  // no 10 s watchdog: the full-page cases take longer; the per-contract wall-clock limit applies
+        let disk = SharedDisk::new();
+        let mut w = match create_core(&disk) { Ok(c) => c, Err(e) => return Some(format!("setup: {e}")) };
+        let blocks: Vec<Vec<u8>> = (0..n).map(|i| vec![i as u8]).collect();
+        let refs: Vec<&[u8]> = blocks.iter().map(|b| b.as_slice()).collect();
+        if let Err(e) = block_on(w.append_batch(&refs)) { return Some(format!("setup append_batch: {e}")); }
+        let mut rep = match replica() { Ok(r) => r, Err(e) => return Some(format!("setup: {e}")) };
+        let mut held = vec![false; n + 2];
+        let mut first_missing = 0usize;
+        for (step, i) in order.iter().cloned().enumerate() {
+            let nodes = match block_on(rep.missing_nodes(i)) { Ok(x) => x, Err(e) => return Some(format!("missing_nodes({i}): {e}")) };
+            let rl = rep.info().length; let wl = w.info().length;
+            let up = if rl < wl { Some(RequestUpgrade { start: rl, length: wl - rl }) } else { None };
+            let proof = match block_on(w.create_proof(Some(RequestBlock { index: i, nodes }), None, None, up)) { Ok(Some(p)) => p, Ok(None) => return Some(format!("no proof for held block {i}")), Err(e) => return Some(format!("create_proof({i}): {e}")) };
+            match block_on(rep.verify_and_apply_proof(&proof)) { Ok(true) => {}, other => return Some(format!("honest proof for block {i} not applied: {:?}", other.map_err(|e| e.to_string()))) }
+            held[i as usize] = true;
+            while first_missing < n && held[first_missing] { first_missing += 1; }
+            let c = rep.info().contiguous_length;
+            if c != first_missing as u64 { return Some(format!("after fetching {} blocks (last {i}): contiguous_length {c}, but the smallest index not held is {first_missing}", step + 1)); }
+            if !rep.has(i) || rep.has(n as u64) || rep.has(n as u64 + 32768) { return Some(format!("after fetching block {i}: has() is not exact")); }
+        }
+        None
+    });
+    match r { Ok(x) => x, Err(m) => Some(format!("panic: {m}")) }
+}
+fn contiguous_order(n: usize, kind: u64) -> Vec<u64> {
+    match kind { 0 => (0..n as u64).rev().collect(),                          // descending: the last fetch closes the whole range
+        1 => (0..n as u64).collect(),
+        _ => { let mut v: Vec<u64> = (0..n as u64).filter(|i| i % 2 == 1).collect(); v.extend((0..n as u64).filter(|i| i % 2 == 0)); v } }
+}
+fn search_contiguous(rng: &mut Rng, budget: usize) -> Option<String> {
+    let mut cases: Vec<(usize, u64)> = vec![(5, 0), (9, 2), (32768, 0), (32770, 0)];
+    for _ in 0..budget.min(20) { cases.push((1 + rng.below(40) as usize, rng.below(3))); }
+    for (n, kind) in cases { if let Some(m) = contiguous_check(n, &contiguous_order(n, kind)) { return Some(format!("{{\"writer_blocks\":{},\"order\":\"{}\",\"why\":\"{}\"}}|{};{}", n, ["descending", "ascending", "odd then even"][kind as usize], m, n, kind)); } }
+    None
+}
+fn rerun_contiguous(input: &str) -> Option<String> { let t = input.rsplit('|').next().unwrap(); let (a, b) = t.split_once(';').unwrap(); let n: usize = a.parse().unwrap(); contiguous_check(n, &contiguous_order(n, b.parse().unwrap())) }
+
 // ---------------- C04: single-field alterations of honest proofs ----------------
 /// observations of a replica (info, has/get of every block below `upto`)
 fn observe(c: &mut Hypercore, upto: u64) -> String {
@@ -265,6 +308,11 @@ fn alter(p: &Proof, a: usize) -> Option<(Proof, &'static str, bool)> {
         14 => { let u = q.upgrade.as_mut()?; let n = u.nodes.first()?.clone(); u.nodes.insert(0, n); Some((q, "upgrade node duplicated", false)) }
         15 => { q.upgrade.as_ref()?; q.upgrade = None; Some((q, "upgrade section removed", false)) }
         16 => { let u = q.upgrade.as_mut()?; let other = crate::generate_signing_key(); let _ = other; u.signature = vec![9u8; 64]; Some((q, "signature replaced", true)) }
+        // node inserts (C04 lists them): an invented leaf right after the signed length would become a new root unless the
+        // signature covers the additional nodes too
+        17 => { let u = q.upgrade.as_mut()?; let idx = 2 * (u.start + u.length); u.additional_nodes.push(Node::new(idx, vec![0x5a; 32], 1000)); Some((q, "node inserted at the end of additional_nodes", true)) }
+        18 => { let u = q.upgrade.as_mut()?; let idx = 2 * (u.start + u.length); u.additional_nodes.insert(0, Node::new(idx, vec![0x5b; 32], 7)); Some((q, "node inserted at the front of additional_nodes", true)) }
+        19 => { let b = q.block.as_mut()?; let idx = b.nodes.last().map(|n| n.index + 2).unwrap_or(1); b.nodes.push(Node::new(idx, vec![0x5c; 32], 3)); Some((q, "node appended to the block section", false)) }
         _ => None,
     }
 }
@@ -304,7 +352,7 @@ fn altered_check(n: usize, have: u64, target: u64, a: usize) -> Option<String> {
 fn search_altered(rng: &mut Rng, budget: usize) -> Option<String> {
     let mut cases: Vec<(usize, u64, u64)> = vec![(1, 0, 0), (2, 0, 1), (3, 1, 2), (5, 2, 4), (8, 3, 6), (8, 8, 3), (10, 4, 9), (13, 5, 12)];
     for _ in 0..budget.min(30) { let n = 1 + rng.below(20) as usize; let have = rng.below(n as u64 + 1); let t = rng.below(n as u64); cases.push((n, have.min(n as u64), t)); }
-    for (n, have, t) in cases { for a in 0..17 { if let Some(m) = altered_check(n, have, t, a) { return Some(format!("{{\"writer_blocks\":{},\"replica_has_first\":{},\"block\":{},\"alteration\":{},\"why\":\"{}\"}}|{};{};{};{}", n, have, t, a, m, n, have, t, a)); } } }
+    for (n, have, t) in cases { for a in 0..20 { if let Some(m) = altered_check(n, have, t, a) { return Some(format!("{{\"writer_blocks\":{},\"replica_has_first\":{},\"block\":{},\"alteration\":{},\"why\":\"{}\"}}|{};{};{};{}", n, have, t, a, m, n, have, t, a)); } } }
     None
 }
 fn rerun_altered(input: &str) -> Option<String> { let f: Vec<u64> = input.rsplit('|').next().unwrap().split(';').map(|x| x.parse().unwrap()).collect(); altered_check(f[0] as usize, f[1], f[2], f[3] as usize) }
@@ -323,6 +371,8 @@ pub fn contracts() -> Vec<Contract> {
         Contract { name: "proofs.honest_replication", covers: &["MerkleTree::missing_nodes", "MerkleTree::create_valueless_proof", "MerkleTree::verify_proof", "fn verify_tree", "fn verify_upgrade", "MerkleTree::byte_offset_in_changeset",
             "MerkleTree::commit", "MerkleTreeChangeset::append_root", "MerkleTreeChangeset::append", "MerkleTreeChangeset::hash_and_sign"],
             search: search_honest, rerun: rerun_honest },
+        Contract { name: "e2e.replica_contiguous", covers: &["fn update_contiguous_length", "DynamicBitfield::index_of", "DynamicBitfield::set", "DynamicBitfield::get", "Hypercore::verify_and_apply_proof"],
+            search: search_contiguous, rerun: rerun_contiguous },
         Contract { name: "proofs.altered_proofs_refused", covers: &["MerkleTree::verify_proof", "fn verify_tree", "fn verify_upgrade", "NodeQueue::shift", "Hypercore::verify_and_apply_proof", "Hypercore::verify_proof",
             "MerkleTreeChangeset::verify_and_set_signature", "MerkleTreeChangeset::signable", "fn signable_tree", "Hash::parent", "Hash::data", "Hash::tree", "fn block_node", "fn parent_node", "MerkleTree::commit"],
             search: search_altered, rerun: rerun_altered },
